@@ -39,6 +39,11 @@ def check(repo, col, tier):
     _pair(repo, col)
     from . import c11
     c11.keyclass_on_base(repo, col, "R-C19-keyclass")
+    # recordings / clamps / trainables of synapses store the global edge index; the per-type arrays are addressed by the RANK
+    # of the edge within its type, for any connect history (interleaved types) -- shared with C08
+    from . import c08
+    col.rule("R-C19-rank", "global edge index -> position within the synapse type is the rank among the edges of that type", 1)
+    c08.rank_converter(repo, col, "R-C19-rank")
     # "integrate simulates the model displayed by .edges": every synapse reads from and delivers to the compartments its row names
     from . import c09, idx as _idx
     col.rule("R-C19-simulates", "synaptic currents are computed from and delivered to the compartments named in the edge table", 8)
@@ -203,6 +208,21 @@ def _undo(repo, col):
                "params": "params+states", "states": "params+states"}[a]
         col.check(rel in released, R, dele, f"delete_channel releases `{a}` acquired by insert", "paired",
                   f"insert acquires `{a}` but delete_channel never releases it", node=dele.node)
+    # ---- a shared resource is acquired ONCE: delete_channel removes a shared current name exactly once (when the last holder
+    # goes), so insert may register it only if it is not registered yet
+    for s_ in ei.stores:
+        if s_.kind == "mcall" and s_.key.name == "append" and s_.base.op == "attr" and s_.base.name == "membrane_current_names":
+            guarded = any((g.op == "cmp" and g.name == "not in" and T.find(g.args[1], lambda x: x.op == "attr" and x.name == "membrane_current_names") is not None and
+                           T.find(g.args[0], lambda x: x.op == "attr" and x.name == "current_name") is not None) or
+                          (g.op in ("not", "unary") and T.find(g, lambda x: x.op == "cmp" and x.name == "in" and
+                                                               T.find(x.args[1], lambda y: y.op == "attr" and y.name == "membrane_current_names") is not None) is not None)
+                          for g in s_.guards)
+            col.check(guarded, R, ins, "insert registers a (possibly shared) current name only if it is not registered yet",
+                      "if channel.current_name not in base.membrane_current_names",
+                      f"`{unparse(s_.node)[:70]}` runs under {[g.short(50) for g in s_.guards] or 'no condition'}: current names "
+                      f"{sorted(shared_c)} are shared by several channels ({shared_c}); inserting K and Km registers `i_K` twice, and "
+                      f"deleting both leaves one `i_K` behind (record('i_K') is then accepted on a module without such a current)",
+                      node=s_.node)
     # ---- shared resources: release only if no other holder
     # (1) the current name
     s = released.get("membrane_current_names")
